@@ -457,6 +457,13 @@ class CERPolicy(Policy):
         if nocts <= 1000:
             return None
         segs = []
+        if kind == 'BITS':
+            # every fragment has 1000 contents octets: its own unused-bits octet + 999 data octets
+            data = nocts - 1
+            while data > 0:
+                segs.append(min(999, data) + 1)
+                data -= 999
+            return segs
         while nocts > 0:
             segs.append(min(1000, nocts))
             nocts -= 1000
@@ -561,7 +568,7 @@ class Encoder(object):
             _, mode, cls, num, inner = T
             me = outer or (cls, num)
             if mode == 'E' or is_untagged(inner):
-                return self.tlv(me, True, self.enc(inner, v), 'explicit')
+                return self.explicit(me, inner, self.enc(inner, v))
             return self.enc(inner, v, me)
         if k == 'ANY':
             if outer is not None:
@@ -603,6 +610,13 @@ class Encoder(object):
             return self.tlv(tag, True, b''.join(encs[i] for i in order))
         raise ModelError('unknown type %r' % (T,))
 
+    def explicit(self, tag, inner, content):
+        return self.tlv(tag, True, content, 'explicit')
+
+    def omit_member(self, ft, opt, cv, encoding):
+        """hook: extra omission rule (none in X.690)"""
+        return False
+
     def members(self, T, v):
         """list of (sort tag, encoding) of the components that are encoded"""
         out = []
@@ -620,6 +634,8 @@ class Encoder(object):
                 if not self.p.default_present():
                     continue
             e = self.enc(ft, cv)
+            if self.omit_member(ft, opt, cv, e):
+                continue
             out.append((self.sort_tag(ft, cv, T[0] == 'SET'), e))
         if set(v) - names:
             raise ModelError('unknown component names %r' % (set(v) - names,))
